@@ -50,6 +50,7 @@ func init() {
 				cfg.Straggler = 1 + r.Intn(cfg.N0)
 				cfg.StragglerP = []float64{0.03, 0.06, 0.1, 0.2}[r.Intn(4)]
 				cfg.PSilence = 0
+				cfg.StragglerListens = r.Bool(0.5)
 			}
 			if r.Bool(0.15) {
 				// every request travels through babble's real NetworkTransport
